@@ -21,8 +21,8 @@ def incremental(pid, tier, replay):
     if replay:
         return engine.engine_replay(pid, replay)
     fams = _fams(
-        [dict(fam="inc", K=6, CH=4), dict(fam="inc2", K=4, CH=4), dict(fam="partial", K=4, CH=4)],
-        [dict(fam="inc", K=60, CH=30), dict(fam="inc2", K=30, CH=12), dict(fam="partial", K=30, CH=12)], tier)
+        [dict(fam="inc", K=6, CH=4), dict(fam="inc2", K=4, CH=4), dict(fam="partial", K=4, CH=4), dict(fam="rand", K=12, CH=4)],
+        [dict(fam="inc", K=60, CH=30), dict(fam="inc2", K=30, CH=12), dict(fam="partial", K=30, CH=12), dict(fam="rand", K=300, CH=8)], tier)
     return engine.engine_check(pid, fams, tier, maxruns=16 if tier == "quick" else 64)
 
 
@@ -232,3 +232,93 @@ def shellquote(pid, tier, replay):
         return report(pid, found, {})
     finally:
         shutil.rmtree(wd, ignore_errors=True)
+
+
+def _log_check(pid, tier, replay, kind, model, mc_cfg, trace_spec, seqfams, gen_n, viol_ids):
+    """Common driver of C08/C09: MC of the format design, TLC-exported operation sequences and seeded
+    random long histories replayed on the real class, TLC validation of every recorded execution."""
+    t0 = time.time()
+    bins = nbuild.build("dbg", ["logh"])
+    wd = scratch(pid)
+    try:
+        found, nviol = [], 0
+        if replay:
+            rp = json.load(open(replay))
+            seqs = [rp["sequence"]]
+            mc = {"distinct": 0, "states": 0}
+        else:
+            mc = fnlib.mc_run(model, mc_cfg, wd, xmx="16g")
+            if mc["error"]:
+                raise Broken("%s model check failed: %s\n%s" % (model, mc["error"], mc["out"][-2000:]))
+            def exp(fk):
+                f, k = fk
+                return fnlib.export_vectors(model, wd, {"SEQ": f, "K": k}, name="seq_%s.ndjson" % f,
+                                            cfg_text="INIT Init\nNEXT StopNext\nCONSTANT MaxOps = 0\nCHECK_DEADLOCK FALSE\n")
+            # TLC's RandomSubset is seeded by -seed: pass it through extra env of run_tlc via JAVA opts is not possible; export is deterministic per spec
+            paths = parallel(exp, seqfams)
+            seqs = []
+            for p in paths:
+                seqs += [json.loads(l) for l in open(p) if l.strip()]
+            gp = os.path.join(wd, "gen.ndjson")
+            subprocess.run([bins["logh"], "gen", kind, str(seed()), str(gen_n), gp], check=True)
+            seqs += [json.loads(l) for l in open(gp) if l.strip()]
+        shards = []
+        n = min(NCPU, max(1, len(seqs)))
+        for k in range(n):
+            sp = os.path.join(wd, "seqs.%d.ndjson" % k)
+            with open(sp, "w") as f:
+                for s in seqs[k::n]:
+                    f.write(json.dumps(s) + "\n")
+            tp = os.path.join(wd, "trace.%d.ndjson" % k)
+            shards.append((sp, tp))
+        def run(pair):
+            r = subprocess.run(["timeout", "900", bins["logh"], "run", kind, pair[0], pair[1]], capture_output=True, text=True)
+            if r.returncode != 0:
+                raise Broken("logh failed rc=%d %s" % (r.returncode, r.stderr[-500:]))
+        parallel(run, shards)
+        stats = {}
+        tstates = 0
+        impl_drift = 0
+        for (sp, tp), (tp2, d, r) in zip(shards, fnlib.validate_calls(trace_spec, [t for _, t in shards], wd)):
+            tstates += r["states"]
+            for k, v in d["stats"].items():
+                stats[k] = stats.get(k, 0) + v
+            lines = None
+            for v in d["viol"]:
+                if v["p"] == "IMPL":
+                    impl_drift += 1
+                    continue
+                if v["p"] not in viol_ids:
+                    continue
+                nviol += 1
+                if len(found) < 25:
+                    sq = [json.loads(x) for x in open(sp) if x.strip()][v["sc"]]
+                    if lines is None:
+                        lines = open(tp).read().split("\n")
+                    ev = json.loads(lines[v["l"] - 1])
+                    p = replay or save_replay(pid, "%s-%d-l%d" % (os.path.basename(tp), v["sc"], v["l"]), {"property": pid, "sequence": sq, "violation": v})
+                    found.append((p, "%s (operation %s)" % (v["what"], json.dumps({k: x for k, x in ev.items() if k not in ("bytes", "entries", "table")})[:200])))
+        if not replay:
+            write_evidence(pid, tier, "model_checking", {
+                "states": mc["distinct"] + tstates, "transitions": mc["states"] + tstates,
+                "traces_validated_against_impl": stats.get("seqs", 0),
+                "samples": seqs[:2] + seqs[-1:],
+                "evaluations": stats.get("ops", 0), "distinct_nontrivial": stats.get("seqs", 0),
+                "rule": "operation sequences (record / tear at every byte offset of the tail / append behind the tear / reopen / recompact / restat / version) "
+                        "exported by TLC from the model's alphabet plus seeded random long histories; each executed on the real class with real files and "
+                        "validated operation by operation by TLC against the property-level clauses; non-trivial = sequences (all contain a tear, a maintenance op or >= 20 ops)",
+                "design_states": mc["distinct"], "operations": stats.get("ops", 0), "loads_checked": stats.get("loads", 0), "tears": stats.get("tears", 0),
+                "impl_conformance": {"rejected": impl_drift}, "exhaustive": False,
+            }, time.time() - t0, nviol, ["TLC", "the property-level clauses of the *Ref module", "the harness truncates/damages files exactly as logged"])
+        return report(pid, found, {})
+    finally:
+        shutil.rmtree(wd, ignore_errors=True)
+
+
+@reg("C08")
+def buildlog(pid, tier, replay):
+    q = tier == "quick"
+    return _log_check(pid, tier, replay, "blog", "BuildLog.tla",
+                      "SPECIFICATION Spec\nCONSTANT MaxOps = %d\nINVARIANT SafeInv\nINVARIANT CompleteInv\nINVARIANT ExactInv\nCHECK_DEADLOCK FALSE\n" % (4 if q else 5),
+                      "BuildLogTrace", [("tear1", 3 if q else 12), ("tear2", 2 if q else 6), ("maint", 3 if q else 12), ("version", 3 if q else 12)],
+                      40 if q else 600, {"C08"})
